@@ -262,6 +262,12 @@ def step (s : St) (j : Json) : R (St × Json) := do
       ("wf", decide (WfName q)),
       ("parent_owns", match par with | some p => decide (p.Owns q) | none => false),
       ("own_resolves", (m.resolveOwn q.print).isSome)])
+  | "spec_json" =>
+    let t ← decJVal (← j.getObjVal? "tree")
+    match Prov.JsonSpec.readDocument t with
+    | some bs => return (s, Json.mkObj [("doc", Json.arr (bs.map (fun b =>
+        Json.arr #[Json.str b.1, Json.arr (b.2.map encARec).toArray])).toArray)])
+    | none => return (s, Json.mkObj [("doc", Json.null)])
   | "enc_json" =>
     let c ← s.cont j "c"
     match s.h.encodeJson c with
